@@ -5,13 +5,13 @@ def c07(tier):
     runs = []
     if tier == "quick":
         for t in TOPOS_QUICK:
-            runs.append(H("c07_deterministic", "plain", 60, t, timeout_per_case=120, params=dict(maxitems=300)))
+            runs.append(H("c07_deterministic", "plain", 60, t, timeout_per_case=180, params=dict(maxitems=300, biggen=1)))
         runs.append(H("c07_deterministic", "plain", 15, "12,12,8", cpus=4, timeout_per_case=240,
                       params=dict(oversub=1, maxitems=60)))
         runs.append(H("c07_deterministic", "asan", 40, "4,4,4,4", timeout_per_case=240, params=dict(maxitems=200)))
     else:
         for t in TOPOS_THOROUGH:
-            runs.append(H("c07_deterministic", "plain", 400, t, timeout_per_case=180, params=dict(maxitems=800)))
+            runs.append(H("c07_deterministic", "plain", 400, t, timeout_per_case=240, params=dict(maxitems=800, biggen=1)))
             runs.append(H("c07_deterministic", "asan", 120, t, timeout_per_case=300, params=dict(maxitems=300)))
         for cpus in (2, 4):
             runs.append(H("c07_deterministic", "plain", 40, "12,12,8", cpus=cpus, timeout_per_case=400,
@@ -32,10 +32,14 @@ SPEC = dict(
                "(stamps, version stability, ticket-order replay, nothing left owned) apply. Held on the executions observed.",
     level_note="Trusts that generated programs are pure functions of the item id and of the state read under ownership; pushes before "
                "the cautious point and voluntary aborts are outside the deterministic executor's contract and not generated; "
-               "fixed_neighborhood / intent_to_read / det_parallel_break variants are not instantiated.",
+               "fixed_neighborhood / intent_to_read / det_parallel_break variants are not instantiated. In assert-enabled "
+               "builds generations above the executor's minimum window (1280 items) trip its own assertion 'someone should have "
+               "committed' on the unchanged tree (calculateWindow reads commit counters other threads are resetting); no oracle "
+               "violation follows from it in the plain runs, which include such generations with delays injected at that point "
+               "(big_generation_cases), so the asan runs stay below that size (an assert stricter than the property, DESIGN 2.1).",
     rule="case = (variant, 2-4 runs with their thread counts, generated program, dynamic pushes or not, shuffled initial order or not); "
          "non-trivial iff >=2 distinct thread counts, >=2 threads committed in some run and objects were updated; distinct by the case signature",
-    require={"runs_compared": 100, "commits_with_objects_replayed": 2000, "multi_socket_cases": 5},
+    require={"runs_compared": 100, "commits_with_objects_replayed": 2000, "big_generation_cases": 5, "multi_socket_cases": 5},
     assumptions=["determinism is demanded across thread counts, repeated runs and interleavings, as the statement says; "
                  "without det_id the initial range is presented in the same order in every run"],
 )
